@@ -108,6 +108,10 @@ rt_full!(rt_full_tuple3, (u64, u64, u64), 0, 48, 9);
 rt_full!(rt_full_tuple12, (u8, u8, u8, u8, u8, u8, u8, u8, u8, u8, u8, u8), 0, 32, 3);
 // @h rt_full_arr_u32_3 props=C01,C06,C07 tier=quick kind=complete vars="v:[u32;3], pos0<16" fns="impls/array.rs:DeserializeHelper<Zero>,impls/array.rs:SerializeHelper<Zero>"
 rt_full!(rt_full_arr_u32_3, [u32; 3], 0, 32, 5);
+// @h rt_full_arr_z8_2 props=C01,C06,C07 tier=quick kind=complete vars="v:[Z8;2] (element size 8 != alignment 4), pos0<16" fns="impls/array.rs:DeserializeHelper<Zero>,impls/array.rs:SerializeHelper<Zero>"
+rt_full!(rt_full_arr_z8_2, [Z8; 2], 0, 48, 5);
+// @h rt_full_arr_pair_2 props=C01,C06,C07 tier=quick kind=complete vars="v:[(u16,u16);2] (element size 4 != alignment 2), pos0<16" fns="impls/array.rs:DeserializeHelper<Zero>,impls/tuple.rs"
+rt_full!(rt_full_arr_pair_2, [(u16, u16); 2], 0, 32, 5);
 // @h rt_full_arr_opt_2 props=C01,C06,C07 tier=quick kind=complete vars="v:[Option<u8>;2], pos0<16" fns="impls/array.rs:DeserializeHelper<Deep>,impls/array.rs:SerializeHelper<Deep>"
 rt_full!(rt_full_arr_opt_2, [Option<u8>; 2], 0, 32, 4);
 // @h rt_full_arr_u16_0 props=C01,C06,C07 tier=quick kind=complete vars="v:[u16;0], pos0<16" fns="impls/array.rs:DeserializeHelper<Zero>"
